@@ -11,7 +11,9 @@ ENTRY = "socialchoicekit.deterministic_matching.Irving.scf"
 
 @guard
 def impl_one(case):
-    out = S.call_irving(case["P1"], case["P2"], case["V1"], case["V2"], zero=case.get("zero", True), with_profiles=not case.get("omit", False))
+    import numpy as np
+    out = S.call_irving(case["P1"], case["P2"], case["V1"], case["V2"], zero=case.get("zero", True), with_profiles=not case.get("omit", False),
+                        rank_dtype=np.float64 if case.get("float_ranks") else np.int64)
     return {"pairs": out}
 
 
@@ -33,7 +35,8 @@ def gen_random(R, count, nmax):
             V1 = [R.rng.sample(range(-20, 40), n) for _ in range(n)]
             V2 = [R.rng.sample(range(-20, 40), n) for _ in range(n)]
             P1, P2 = S.induced_ranks(V1), S.induced_ranks(V2)
-        items.append({"P1": P1, "P2": P2, "V1": V1, "V2": V2, "zero": R.rng.random() < 0.5, "omit": kind == "omit", "tag": kind})
+        items.append({"P1": P1, "P2": P2, "V1": V1, "V2": V2, "zero": R.rng.random() < 0.5, "omit": kind == "omit", "tag": kind,
+                      "float_ranks": R.rng.random() < 0.3})
     return items
 
 
@@ -67,7 +70,7 @@ def judge(R, it, res, cert, lean_ans):
     n = len(P1)
     fixer = 0 if it.get("zero", True) else 1
     inp = {"P1": P1, "P2": P2, "V1": V1, "V2": V2}
-    cfg = {"zero_indexed": fixer == 0, "ordinal_profiles_omitted": it.get("omit", False)}
+    cfg = {"zero_indexed": fixer == 0, "ordinal_profiles_omitted": it.get("omit", False), "float_ranks": bool(it.get("float_ranks"))}
     R.count(it.get("tag", "?"))
     R.count(f"n={n if n < 10 else '10+'}")
     if "hang" in res:
@@ -211,4 +214,5 @@ def run(R):
 def replay(R, rep):
     inp = rep["input"]
     cfg = rep.get("config", {})
-    run_items(R, [dict(inp, zero=cfg.get("zero_indexed", True), omit=cfg.get("ordinal_profiles_omitted", False), tag="replay")], 60.0, lambda i, it: True)
+    run_items(R, [dict(inp, zero=cfg.get("zero_indexed", True), omit=cfg.get("ordinal_profiles_omitted", False), float_ranks=cfg.get("float_ranks", False),
+                       tag="replay")], 60.0, lambda i, it: True)
